@@ -42,6 +42,7 @@ var registry = map[string]*PropDef{
 		Harnesses: []HarnessDef{
 			{Pkg: "cmd", Func: "VP_C02_WriteTree", Quick: map[string]int{"entries": 3, "depth": 2, "complen": 1, "symhash": 0}, Thorough: map[string]int{"entries": 3, "depth": 2, "complen": 2, "symhash": 0}, Share: 1.00},
 			{Pkg: "cmd", Func: "VP_C02_WriteTree", Quick: map[string]int{"entries": 2, "depth": 2, "complen": 2, "symhash": 0}, Thorough: map[string]int{"entries": 2, "depth": 3, "complen": 2, "symhash": 1}, Share: 1.00},
+			{Pkg: "cmd", Func: "VP_C02_Branches", Quick: map[string]int{"namelen": 1, "branches": 3}, Thorough: map[string]int{"namelen": 2, "branches": 3}, Share: 1.00},
 			{Pkg: "cmd", Func: "VP_C02_Commit", Quick: map[string]int{"files": 2, "depth": 2, "complen": 1, "msglen": 1, "content": 1}, Thorough: map[string]int{"files": 2, "depth": 2, "complen": 2, "msglen": 2, "content": 1}, Share: 1.00},
 		},
 		QuickBudget: 10 * time.Minute, ThoroughBudget: 45 * time.Minute, Assumptions: commonAssumptions,
@@ -57,7 +58,7 @@ var registry = map[string]*PropDef{
 		Harnesses: []HarnessDef{
 			{Pkg: "cmd", Func: "VP_C04_AddMulti", Quick: map[string]int{"args": 3}, Thorough: map[string]int{"args": 4}, Share: 1.00},
 			{Pkg: "cmd", Func: "VP_C04_Add", Quick: map[string]int{"tracked": 2, "depth": 2, "complen": 1}, Thorough: map[string]int{"tracked": 2, "depth": 2, "complen": 1}, Share: 1.00},
-			{Pkg: "cmd", Func: "VP_C04_Rm", Quick: map[string]int{"tracked": 2, "depth": 2, "complen": 2, "deepcomplen": 1}, Thorough: map[string]int{"tracked": 2, "depth": 2, "complen": 2}, Share: 1.00},
+			{Pkg: "cmd", Func: "VP_C04_Rm", Quick: map[string]int{"tracked": 2, "depth": 2, "complen": 2, "deepcomplen": 1, "kindchange": 1}, Thorough: map[string]int{"tracked": 2, "depth": 2, "complen": 2}, Share: 1.00},
 			{Pkg: "cmd", Func: "VP_C04_ReAdd", Quick: map[string]int{"files": 2, "depth": 2, "complen": 1}, Thorough: map[string]int{"files": 2, "depth": 2, "complen": 2}, Share: 1.00},
 		},
 		QuickBudget: 10 * time.Minute, ThoroughBudget: 45 * time.Minute, Assumptions: commonAssumptions,
@@ -112,7 +113,7 @@ var registry = map[string]*PropDef{
 			{Pkg: "internal/store", Func: "VP_C10_Delete", Quick: map[string]int{"branches": 3, "namelen": 2}, Thorough: map[string]int{"branches": 3, "namelen": 3}, Share: 1.00},
 			{Pkg: "internal/store", Func: "VP_C10_UpdateHash", Quick: map[string]int{"branches": 3, "namelen": 2}, Thorough: map[string]int{"branches": 3, "namelen": 3}, Share: 1.00},
 			{Pkg: "internal/store", Func: "VP_C10_Reload", Quick: map[string]int{"branches": 3, "namelen": 2}, Thorough: map[string]int{"branches": 3, "namelen": 3}, Share: 1.00},
-			{Pkg: "cmd", Func: "VP_C10_Cli", Quick: map[string]int{"namelen": 1}, Thorough: map[string]int{"namelen": 2}, Share: 1.00},
+			{Pkg: "cmd", Func: "VP_C10_Cli", Quick: map[string]int{"namelen": 1, "qlen": 2}, Thorough: map[string]int{"namelen": 2, "qlen": 2}, Share: 1.00},
 		},
 		QuickBudget: 10 * time.Minute, ThoroughBudget: 45 * time.Minute, Assumptions: commonAssumptions,
 	},
